@@ -57,7 +57,7 @@ static void copy_assign(const char* dom, var x, var blank, const char* desc) {
     VH_CATCH(assign(blank, x), exc);
     if (exc) { vh_violation(K(dom, "assign-raised"), "assign raised %s for %s", vh_exc_name(exc), desc); }
     else {
-      if (!eq(blank, x)) { vh_violation(K(dom, "assign-not-eq"), "assigned object is not eq to the source for %s", desc); }
+      if (!eq(blank, x) || !eq(x, blank)) { vh_violation(K(dom, "assign-not-eq"), "assigned object is not eq to the source for %s", desc); }
       if (hash(blank) != hx) { vh_violation(K(dom, "assign-hashes-differently"), "assigned object hashes differently for %s", desc); }
     }
   }
@@ -241,9 +241,15 @@ static void seq_histories(vh_rng* r) {
     if (kinds[i] != kinds[j]) { vh_count("cross_kind_equal_pairs"); }
   } }
   for (int i = 0; i < 3; i++) {
-    var blank = kinds[i] == 0 ? (var)new(Array, Int) : kinds[i] == 1 ? (var)new(List, Int) : NULL;
-    snprintf(d, sizeof d, "sequence kind %d of %d elements", kinds[i], n);
+    /* the target of the assignment is of any kind and already holds fewer, as many or more elements than the source */
+    int tk = (kinds[i] == 2 || vh_chance(r, 60)) ? kinds[i] : (int)vh_below(r, 3);     /* (a Tuple source makes an Array of Ref: not eq by design) */
+    int had = vh_chance(r, 25) ? 0 : (int)vh_below(r, (uint64_t)n + 5);
+    var blank = tk == 0 ? (var)new(Array, Int) : tk == 1 ? (var)new(List, Int) : (var)new(Tuple);
+    for (int k = 0; k < had; k++) { push(blank, tk == 2 ? (var)new(Int, $I(9000 + k)) : (var)$I(9000 + k)); }
+    snprintf(d, sizeof d, "sequence kind %d of %d elements assigned to a kind %d that held %d", kinds[i], n, tk, had);
     copy_assign("sequence", c[i], blank, d);
+    if (had > n) { vh_count("assigns_onto_a_longer_sequence"); if (tk == 2) { vh_count("assigns_onto_a_longer_tuple"); } }
+    if (tk != kinds[i]) { vh_count("cross_kind_sequence_assigns"); }
   }
   /* swap two containers of the same kind */
   { int64_t w[3] = { 9, 8, 7 }; var o = build_seq(r, 0, w, 3, 0); swap_check("sequence", c[0], o, "two Arrays"); }
